@@ -80,8 +80,10 @@ void Rpc::request(const std::string &method, const Json &js_params, RequestCallb
     int id = 0;
     if (cb) {
         id = allocRequestId();
-        request_callback_[id] = std::move(cb);
-        request_timeout_.add(id);
+        RequestItem &item = request_callback_[id];
+        item.seq = ++request_seq_;
+        item.cb = std::move(cb);
+        request_timeout_.add(RequestToken{id, item.seq});
     }
     proto_->sendRequest(id, method, js_params);
 }
@@ -191,19 +193,20 @@ void Rpc::onRecvRespond(int id, int errcode, const Json &js_result)
     auto iter = request_callback_.find(id);
     if (iter != request_callback_.end()) {
         //! 先取出并删除，再回调：回调里可能再次进入本对象（重复的回复、新的请求、cleanup()）
-        RequestCallback cb = std::move(iter->second);
+        RequestCallback cb = std::move(iter->second.cb);
         request_callback_.erase(iter);
         if (cb)
             cb(errcode, js_result);
     }
 }
 
-void Rpc::onRequestTimeout(int id)
+void Rpc::onRequestTimeout(const RequestToken &token)
 {
-    auto iter = request_callback_.find(id);
-    if (iter != request_callback_.end()) {
+    auto iter = request_callback_.find(token.id);
+    //! 序号不同：该条目属于已经结束的旧请求，其 id 已被新的请求复用，新请求有自己的条目
+    if (iter != request_callback_.end() && iter->second.seq == token.seq) {
         //! 同 onRecvRespond()：先取出并删除，再回调
-        RequestCallback cb = std::move(iter->second);
+        RequestCallback cb = std::move(iter->second.cb);
         request_callback_.erase(iter);
         if (cb)
             cb(ErrorCode::kRequestTimeout, Json());
